@@ -59,12 +59,12 @@ def run(ctx):
             raise side[name]
         return side[name]
     mcfg = "Multisig_q.cfg" if quick else "Multisig_t.cfg"
-    num = 600 if quick else 12000
+    num = 1500 if quick else 30000
     # (M): deeper exhaustive run without emission; (R) source: simulation on larger keys (n up to 17:
     # Elems of 1..3 bytes, ExtraBitsStored 0..9 and 200). Both run beside the edge run.
     t_mc = bg("mc", lambda: vlib.run_tlc(ctx, "MCMultisig", mcfg, timeout=2400, workers=4))
     t_sim = bg("sim", lambda: vlib.run_tlc(ctx, "MCMultisig", "Multisig_sim.cfg", mode="simulate", simulate=num,
-                                             depth=16, tags=("TRACE",), timeout=1500))
+                                             depth=18, tags=("TRACE",), timeout=1500))
     # (M)+(R): exhaustive graph with one behaviour per edge
     ecfg = "Multisig_qe.cfg" if quick else "Multisig_te.cfg"
     r = vlib.run_tlc(ctx, "MCMultisig", ecfg, tags=("EDGE",), timeout=1500, workers=4)
